@@ -4,6 +4,7 @@ From CG3 Require Import Lib.PyZ Lib.Val Lib.PySlice Model.View Spec.ViewSpec Pro
 From CG3 Require Import Model.Serial Spec.SerialSpec.
 From CG3 Require Model.IndelMap Spec.IndelMapSpec Proofs.IndelMapOps Proofs.IndelMapSlice.
 From CG3 Require Lib.Rose Model.Tree Model.TreeJson Proofs.NewickMoreProofs.
+From CG3 Require Model.FeatureMap Model.AnnotDb Spec.AnnotDbSpec Proofs.AnnotDbProofs.
 From Coq Require Import Permutation.
 
 (** * dictionaries *)
@@ -864,10 +865,197 @@ Ltac dispatch_to D :=
   | |- context [dispatch registry ?t] => replace (dispatch registry t) with (Some D) by (vm_compute; reflexivity)
   end.
 
+
+(** * feature maps *)
+
+Lemma span_roundtrip sp d : span_okb sp = true -> span_to_dict sp = JObj d -> span_of_dict d = Ok sp.
+Proof.
+  destruct sp as [s e r|n]; cbn [span_okb span_to_dict]; intros Hok Hd; injection Hd as <-; unfold span_of_dict; jget_simpl; cbn [get_str bind].
+  - replace (zeqb ty_span ty_span) with true by (vm_compute; reflexivity). jget_simpl. cbn [get_int bind].
+    unfold FeatureMap.mk_span. replace (s >? e) with false by lia. reflexivity.
+  - replace (zeqb ty_lostspan ty_span) with false by (vm_compute; reflexivity).
+    replace (zeqb ty_lostspan ty_lostspan) with true by (vm_compute; reflexivity). jget_simpl. reflexivity.
+Qed.
+
+Lemma spans_roundtrip l : forallb span_okb l = true -> spans_of_json (map span_to_dict l) = Ok l.
+Proof.
+  induction l as [|sp l IH]; [reflexivity|]. cbn [forallb map]. intros H. apply andb_true_iff in H. destruct H as [H1 H2].
+  destruct (span_to_dict sp) as [| | | | |d|] eqn:E; try (destruct sp; discriminate).
+  cbn [spans_of_json]. rewrite (span_roundtrip sp d H1 E). cbn [bind]. rewrite (IH H2). reflexivity.
+Qed.
+
+Lemma fmap_roundtrip_lemma m d : forallb span_okb (FeatureMap.fspans m) = true -> fmap_to_dict m = JObj d -> fmap_of_dict d = Ok m.
+Proof.
+  intros Hok Hd. unfold fmap_to_dict in Hd. injection Hd as <-. unfold fmap_of_dict. jget_simpl.
+  rewrite (spans_roundtrip _ Hok). cbn [bind get_int]. destruct m; reflexivity.
+Qed.
+
+(** * annotation databases *)
+
+Lemma jget_ofield_here k o d : jget k (ofield k o ++ d) = match o with Some j => Some j | None => jget k d end.
+Proof. destruct o; cbn [ofield app]; [apply jget_here|reflexivity]. Qed.
+
+Lemma jget_ofield_skip k k' o d : zeqb k k' = false -> jget k (ofield k' o ++ d) = jget k d.
+Proof. intros H. destruct o; cbn [ofield app]; [now apply jget_skip|reflexivity]. Qed.
+
+Ltac ofield_simpl :=
+  repeat (rewrite jget_ofield_here || (rewrite jget_ofield_skip by (vm_compute; reflexivity))
+          || rewrite jget_here || (rewrite jget_skip by (vm_compute; reflexivity))).
+
+Lemma spans2_roundtrip sp : spans_of_json2 (map (fun p => JArr [JInt (fst p); JInt (snd p)]) sp) = Ok sp.
+Proof. induction sp as [|[a b] sp IH]; [reflexivity|]. cbn [map spans_of_json2 fst snd]. rewrite IH. reflexivity. Qed.
+
+Lemma get_opt_str_field (o : option AnnotDb.str) rest :
+  get_opt_str (match option_map JStr o with Some j => Some j | None => rest end) =
+  match o with Some s => Ok (Some s) | None => get_opt_str rest end.
+Proof. destruct o; reflexivity. Qed.
+
+Lemma row_roundtrip r d : row_to_json r = JObj d -> row_of_dict (AnnotDb.r_table r) d = Ok r.
+Proof.
+  intros Hd. unfold row_to_json in Hd. injection Hd as <-. unfold row_of_dict.
+  ofield_simpl. rewrite !get_opt_str_field. cbn [jget].
+  destruct r as [t sid bt nm sd at_ oa sp a b]. cbn [AnnotDb.r_seqid AnnotDb.r_biotype AnnotDb.r_name AnnotDb.r_strand AnnotDb.r_attrs AnnotDb.r_on_aln AnnotDb.r_spans AnnotDb.r_start AnnotDb.r_stop AnnotDb.r_table].
+  destruct sid, bt, nm, sd, at_; cbn [get_opt_str bind];
+    (destruct oa as [[|]|]; cbn [option_map bind]; unfold spans_to_json; rewrite spans2_roundtrip; cbn [bind get_int]; reflexivity).
+Qed.
+
+Lemma rows_json_roundtrip t rows : Forall (fun r => AnnotDb.r_table r = t) rows ->
+  rows_of_json t (map row_to_json rows) = Ok rows.
+Proof.
+  induction 1 as [|r rows Hr _ IH]; [reflexivity|]. cbn [map].
+  destruct (row_to_json r) as [| | | | |d|] eqn:E; try discriminate.
+  cbn [rows_of_json]. rewrite <- Hr at 1. rewrite (row_roundtrip r d E). cbn [bind]. rewrite IH. reflexivity.
+Qed.
+
+Lemma rows_of_table t db : Forall (fun r => AnnotDb.r_table r = t) (AnnotDb.rows_of t db).
+Proof.
+  unfold AnnotDb.rows_of. apply Forall_forall. intros r Hr. apply filter_In in Hr. destruct Hr as [_ H]. lia.
+Qed.
+
+Lemma table_key_inv t : t = 0 \/ t = 1 -> table_of_key (table_key t) = t.
+Proof. intros [->| ->]; vm_compute; reflexivity. Qed.
+
+Lemma tables_dict_roundtrip db : forall ts, Forall (fun t => t = 0 \/ t = 1) ts ->
+  tables_of_dict (map (fun tr => (table_key (fst tr), JArr (map row_to_json (snd tr)))) (AnnotDb.to_rich ts db)) = Ok (AnnotDb.to_rich ts db).
+Proof.
+  induction 1 as [|t ts Ht _ IH]; [reflexivity|].
+  unfold AnnotDb.to_rich in *. cbn [map fst snd tables_of_dict].
+  rewrite (table_key_inv t Ht), (rows_json_roundtrip t _ (rows_of_table t db)). cbn [bind]. rewrite IH. reflexivity.
+Qed.
+
+Lemma db_decode_lemma db d : db_to_dict [0; 1] db = JObj d -> db_of_dict d = Ok (AnnotDb.from_rich (AnnotDb.to_rich [0; 1] db)).
+Proof.
+  intros Hd. unfold db_to_dict in Hd. injection Hd as <-. unfold db_of_dict. jget_simpl. cbn [get_obj bind].
+  assert (H01 : Forall (fun t => t = 0 \/ t = 1) [0; 1]) by (constructor; [left; reflexivity|constructor; [right; reflexivity|constructor]]).
+  pose proof (tables_dict_roundtrip db [0; 1] H01) as H. unfold AnnotDb.to_rich in H. cbn [map fst snd] in H.
+  rewrite H. reflexivity.
+Qed.
+
+Lemma records_idem db : AnnotDbProofs.tables_ok [0; 1] db ->
+  AnnotDbSpec.records_in_tables [0; 1] (AnnotDbSpec.records_in_tables [0; 1] db) = AnnotDbSpec.records_in_tables [0; 1] db.
+Proof.
+  intros H. unfold AnnotDbSpec.records_in_tables at 1. cbn [flat_map].
+  rewrite !(AnnotDbProofs.rows_of_records_ok [0; 1] db _ H). reflexivity.
+Qed.
+
+(** the db read back lists the same records table by table, and holds the same multiset (C17) *)
+Lemma db_roundtrip_lemma db d : AnnotDbProofs.tables_ok [0; 1] db -> db_to_dict [0; 1] db = JObj d ->
+  exists db', db_of_dict d = Ok db' /\ AnnotDbSpec.records_in_tables [0; 1] db' = AnnotDbSpec.records_in_tables [0; 1] db /\
+    Permutation db' db.
+Proof.
+  intros Hok Hd. rewrite (db_decode_lemma db d Hd). eexists. split; [reflexivity|].
+  rewrite AnnotDbProofs.from_to_rich. split; [exact (records_idem db Hok)|].
+  rewrite <- AnnotDbProofs.from_to_rich. exact (AnnotDbProofs.rich_roundtrip_multiset [0; 1] db Hok).
+Qed.
+
+(** a sequence WITH its annotation db *)
+Lemma seq_of_dict_old_extra s d extra : seq_to_dict SOld s = JObj d ->
+  seq_of_dict_old (d ++ [(k_annotation_db, extra)]) = seq_of_dict_old d.
+Proof.
+  intros Hd. unfold seq_to_dict in Hd. injection Hd as <-. cbn [app]. unfold seq_of_dict_old. jget_simpl. reflexivity.
+Qed.
+
+Lemma seq_db_roundtrip_lemma s db d : seq_ok s -> AnnotDbProofs.tables_ok [0; 1] db -> db <> [] ->
+  seq_db_to_dict s [0; 1] db = JObj d ->
+  exists s' db', seq_db_of_dict d = Ok (s', db') /\ observe_seq s' = observe_seq s /\
+    AnnotDbSpec.records_in_tables [0; 1] db' = AnnotDbSpec.records_in_tables [0; 1] db /\ Permutation db' db.
+Proof.
+  intros Hs Hdb Hne Hd. unfold seq_db_to_dict in Hd.
+  destruct (seq_to_dict SOld s) as [| | | | |sd|] eqn:Es; try discriminate.
+  destruct db as [|r0 db0]; [contradiction|]. injection Hd as <-.
+  destruct (seq_roundtrip_old_lemma s sd Hs Es) as (s' & Hdec & Hobs).
+  destruct (db_to_dict [0; 1] (r0 :: db0)) as [| | | | |dbd|] eqn:Edb; try discriminate.
+  destruct (db_roundtrip_lemma (r0 :: db0) dbd Hdb Edb) as (db' & Hdbdec & Hrec & Hperm).
+  unfold seq_db_of_dict. rewrite (seq_of_dict_old_extra s sd _ Es), Hdec. cbn [bind].
+  assert (Hj : jget k_annotation_db (sd ++ [(k_annotation_db, JObj dbd)]) = Some (JObj dbd)).
+  { pose proof Es as Es'. unfold seq_to_dict in Es'. injection Es' as <-. cbn [app]. jget_simpl. reflexivity. }
+  rewrite Hj, Hdbdec. cbn [bind]. exists s', db'. repeat split; assumption.
+Qed.
+
+(** * distance matrices and profile arrays *)
+
+(** names a < b < c (< d), ARBITRARY cells off the diagonal, 0.0 on it: the identical matrix *)
+Definition nA := [97]. Definition nB := [98]. Definition nC := [99]. Definition nD := [100].
+Definition z0 := JFloat float_zero.
+
+Lemma dmat_roundtrip_2 v01 v10 inv d :
+  dmat_to_dict (mkDm [nA; nB] [[z0; v01]; [v10; z0]] inv) = JObj d ->
+  dmat_of_dict d = Ok (mkDm [nA; nB] [[z0; v01]; [v10; z0]] inv).
+Proof. intros Hd. injection Hd as <-. reflexivity. Qed.
+
+Lemma dmat_roundtrip_3 v01 v02 v10 v12 v20 v21 inv d :
+  dmat_to_dict (mkDm [nA; nB; nC] [[z0; v01; v02]; [v10; z0; v12]; [v20; v21; z0]] inv) = JObj d ->
+  dmat_of_dict d = Ok (mkDm [nA; nB; nC] [[z0; v01; v02]; [v10; z0; v12]; [v20; v21; z0]] inv).
+Proof. intros Hd. injection Hd as <-. reflexivity. Qed.
+
+Lemma dmat_roundtrip_4 v01 v02 v03 v10 v12 v13 v20 v21 v23 v30 v31 v32 inv d :
+  dmat_to_dict (mkDm [nA; nB; nC; nD] [[z0; v01; v02; v03]; [v10; z0; v12; v13]; [v20; v21; z0; v23]; [v30; v31; v32; z0]] inv) = JObj d ->
+  dmat_of_dict d = Ok (mkDm [nA; nB; nC; nD] [[z0; v01; v02; v03]; [v10; z0; v12; v13]; [v20; v21; z0; v23]; [v30; v31; v32; z0]] inv).
+Proof. intros Hd. injection Hd as <-. reflexivity. Qed.
+
+(** names that are not sorted come back SORTED (the matrix permuted with them) *)
+Lemma dmat_name_order_refuted_lemma :
+  exists m d m', dmat_to_dict m = JObj d /\ dmat_of_dict d = Ok m' /\ dm_names m = [nC; nA; nB] /\ dm_names m' = [nA; nB; nC] /\ m' <> m.
+Proof.
+  exists (mkDm [nC; nA; nB] [[z0; JFloat [49]; JFloat [50]]; [JFloat [49]; z0; JFloat [51]]; [JFloat [50]; JFloat [51]; z0]] JNull).
+  eexists. eexists. split; [reflexivity|]. split; [vm_compute; reflexivity|]. split; [reflexivity|]. split; [reflexivity|]. discriminate.
+Qed.
+
+(** a non-zero diagonal is not written and reads back as 0.0 *)
+Lemma dmat_diagonal_refuted_lemma :
+  exists m d m', dmat_to_dict m = JObj d /\ dmat_of_dict d = Ok m' /\ dm_names m' = dm_names m /\ m' <> m.
+Proof.
+  exists (mkDm [nA; nB] [[JFloat [53]; JFloat [49]]; [JFloat [49]; z0]] JNull).
+  eexists. eexists. split; [reflexivity|]. split; [vm_compute; reflexivity|]. split; [reflexivity|]. discriminate.
+Qed.
+
+(** a profile array writes the type string of its TEMPLATE; the registry resolves it (substring
+    "cogent3.util.dict_array.DictArray") to [deserialise_tabular], which builds a plain DictArray: the data
+    survive, the class (and with it the methods of the profile) does not (open finding C10-K10) *)
+Lemma profile_class_refuted_lemma : forall c a, darr_okb a = true ->
+  exists y, deserialise_object (to_dict (OProfile c a)) = Ok y /\ y = ODarr a /\ observe y <> observe (OProfile c a).
+Proof.
+  intros c a Hok. cbn [to_dict].
+  destruct (darr_to_dict a) as [| | | | |d|] eqn:Ed; try discriminate.
+  pose proof (darr_roundtrip_lemma a d Hok Ed) as Hdec.
+  pose proof Ed as Ed'. unfold darr_to_dict in Ed'. injection Ed' as Ed'.
+  subst d. unfold deserialise_object. jget_simpl. dispatch_to DTabular.
+  cbn [run_decoder]. jget_simpl.
+  replace (is_suffix s_Table ty_dictarray) with false by (vm_compute; reflexivity).
+  replace (is_infix s_dictarray (lower ty_dictarray)) with true by (vm_compute; reflexivity).
+  rewrite Hdec. cbn [bind]. eexists. split; [reflexivity|]. split; [reflexivity|]. cbn [observe]. discriminate.
+Qed.
+
+Lemma moltype_roundtrip_lemma l d : mem_str l moltype_labels = true -> moltype_to_dict l = JObj d -> moltype_of_dict d = Ok l.
+Proof.
+  intros Hok Hd. unfold moltype_to_dict in Hd. injection Hd as <-. unfold moltype_of_dict. jget_simpl. cbn [get_str bind]. now rewrite Hok.
+Qed.
+
+
 Lemma roundtrip_via_registry_lemma x : obj_ok x ->
   exists y, deserialise_object (to_dict x) = Ok y /\ observe y = observe x.
 Proof.
-  destruct x as [v p sid|st s|m|a|k inf rows|t|t|a|n]; cbn [obj_ok to_dict].
+  destruct x as [v p sid|st s|m|a|k inf rows|t|t|a|n|dm|pc pa|fm|tbs rows|s tbs rows|lab]; cbn [obj_ok to_dict].
   - (* bare view *)
     intros [Hwf Hfit].
     destruct (view_to_dict SOld v p sid) as [| | | | |d|] eqn:Ed; try discriminate.
@@ -938,6 +1126,41 @@ Proof.
     pose proof (nc_roundtrip_lemma n d Hok Ed) as Hdec.
     pose proof Ed as Ed'. unfold nc_to_dict in Ed'. injection Ed' as Ed'.
     subst d. unfold deserialise_object. jget_simpl. dispatch_to DNotCompleted.
+    cbn [run_decoder]. rewrite Hdec. cbn [bind]. eexists. split; reflexivity.
+  - (* distance matrix: no general theorem *) intros [].
+  - (* profile array: refuted *) intros [].
+  - (* feature map *)
+    intros Hok.
+    destruct (fmap_to_dict fm) as [| | | | |d|] eqn:Ed; try discriminate.
+    pose proof (fmap_roundtrip_lemma fm d Hok Ed) as Hdec.
+    pose proof Ed as Ed'. unfold fmap_to_dict in Ed'. injection Ed' as Ed'.
+    subst d. unfold deserialise_object. jget_simpl. dispatch_to DFeatureMap.
+    cbn [run_decoder]. rewrite Hdec. cbn [bind]. eexists. split; reflexivity.
+  - (* annotation db *)
+    intros [-> Hok].
+    destruct (db_to_dict [0; 1] rows) as [| | | | |d|] eqn:Ed; try discriminate.
+    destruct (db_roundtrip_lemma rows d Hok Ed) as (db' & Hdec & Hrec & _).
+    pose proof Ed as Ed'. unfold db_to_dict in Ed'. injection Ed' as Ed'.
+    subst d. unfold deserialise_object. jget_simpl. dispatch_to DBasicDb.
+    cbn [run_decoder]. rewrite Hdec. cbn [bind]. eexists. split; [reflexivity|]. cbn [observe]. now rewrite Hrec.
+  - (* sequence with its annotation db *)
+    intros (Hs & [-> Hok] & Hne).
+    destruct (seq_db_to_dict s [0; 1] rows) as [| | | | |d|] eqn:Ed;
+      try (unfold seq_db_to_dict, seq_to_dict in Ed; destruct rows; discriminate).
+    destruct (seq_db_roundtrip_lemma s rows d Hs Hok Hne Ed) as (s' & db' & Hdec & Hobs & Hrec & _).
+    assert (Hty : jget k_type d = Some (JStr (ty_seq SOld (skind (s_core s)))) /\ exists dbd, jget k_annotation_db d = Some (JObj dbd)).
+    { unfold seq_db_to_dict, seq_to_dict, db_to_dict in Ed. destruct rows as [|r0 rows0]; [contradiction|]. injection Ed as <-.
+      cbn [app]. split; [jget_simpl; reflexivity|]. eexists. jget_simpl. reflexivity. }
+    destruct Hty as [Hty (dbd & Hdbk)].
+    unfold deserialise_object. rewrite Hty.
+    replace (dispatch registry (ty_seq SOld (skind (s_core s)))) with (Some DSeq) by (destruct (skind (s_core s)); vm_compute; reflexivity).
+    cbn [run_decoder]. rewrite Hdbk, Hdec. cbn [bind fst snd]. eexists. split; [reflexivity|]. cbn [observe]. now rewrite Hobs, Hrec.
+  - (* moltype, by label *)
+    intros Hok.
+    destruct (moltype_to_dict lab) as [| | | | |d|] eqn:Ed; try discriminate.
+    pose proof (moltype_roundtrip_lemma lab d Hok Ed) as Hdec.
+    pose proof Ed as Ed'. unfold moltype_to_dict in Ed'. injection Ed' as Ed'.
+    subst d. unfold deserialise_object. jget_simpl. dispatch_to DMolType.
     cbn [run_decoder]. rewrite Hdec. cbn [bind]. eexists. split; reflexivity.
 Qed.
 
@@ -1116,4 +1339,24 @@ Proof.
   exists t'. split; [exact Hdec|]. unfold observe_table in Hobs.
   assert (Hi : t_index t' = Some []) by (injection Hobs as H1 _ _; exact H1).
   split; [exact Hi|]. split; [rewrite Hi; discriminate|exact Hobs].
+Qed.
+
+(** non-vacuity: a db with a record in each table, attached to a sliced reverse-complemented sequence *)
+Definition ex_rows : list AnnotDb.row :=
+  [ AnnotDb.Build_row 1 (Some [115]) (Some [103; 101; 110; 101]) (Some [103]) (Some [45]) None (Some false) [(2, 6); (8, 10)] 2 10;
+    AnnotDb.Build_row 0 (Some [115]) (Some [67; 68; 83]) None None (Some [73; 68; 61; 120]) None [(0, 3)] 0 3 ].
+
+Lemma ex_db_ok : db_ok [0; 1] ex_rows.
+Proof.
+  split; [reflexivity|]. split.
+  - constructor; [intros [H|[]]; discriminate|constructor; [intros []|constructor]].
+  - intros r [<-|[<-|[]]]; cbn; auto.
+Qed.
+
+Lemma ex_seq_db_ok :
+  obj_ok (OSeqDb (mkSeq (mkS (mkV (-1) (-4) (-1) 5 2) [65; 67; 71; 84; 65] KDna true) (Some [115]) []) [0; 1] ex_rows).
+Proof.
+  split; [|split; [exact ex_db_ok|discriminate]]. split.
+  - split; [unfold WF; cbn; lia|right; reflexivity].
+  - repeat constructor.
 Qed.
